@@ -29,8 +29,9 @@ Eval(e, arg, env) ==
     [] e[1] = "snd"   -> Eval(e[2], arg, env)[2]
     [] e[1] = "sum"   -> SumSeq(Eval(e[2], arg, env)) % K
 
-(* argument space of a top-level program: an integer, or <<check, integer>> for a top-level cond ... *)
+(* argument space of a top-level program: an integer, <<check, integer>> for a top-level cond, <<carry, xs>> for a scan ... *)
 ArgsOf(g) == IF GF[g].kind = "cond" THEN {<<c, a>> : c \in {0, 1}, a \in V}
+             ELSE IF GF[g].kind = "scan" THEN {<<c, xs>> : c \in V, xs \in [1..GF[g].n -> V]}
              ELSE IF GF[g].kind = "vmap" /\ ~GF[g].bcast THEN {<<a, b>> : a \in V, b \in V}
              ELSE V
 
